@@ -35,21 +35,51 @@ ENGINE_CHECKS = [frame_check]
 
 
 # ---------------------------------------------------------------------------------------------------------------------
-def _alphabet():
+def _declared():
+    """alphabet operation -> (measurement keys, control keys) as written in its construction (not asked from the protocols)"""
     import cirq
     import sympy
 
     a, b, c = cirq.LineQubit.range(3)
-    return [cirq.X(a), cirq.Y(b), cirq.CZ(a, b), cirq.measure(a, key="k"), cirq.measure(b, key="k"), cirq.measure(c, key="m"),
-            cirq.X(b).with_classical_controls("k"), cirq.X(c).with_classical_controls("k", "m"), cirq.Z(c), cirq.CZ(b, c),
-            cirq.H(a), cirq.Z(b), cirq.X(a) ** sympy.Symbol("s"), cirq.rz(sympy.Symbol("t")).on(c), cirq.CZ(a, c) ** sympy.Symbol("s")]
+    gated_body = cirq.CircuitOperation(cirq.FrozenCircuit(cirq.X(b).with_classical_controls("m")))            # body on b reads the OUTER key m (measured on c)
+    measuring_body = cirq.CircuitOperation(cirq.FrozenCircuit(cirq.measure(a, key="k"), cirq.X(a).with_classical_controls("k")))  # measures k and reads its own k
+    table = [
+        (cirq.X(a), (), ()), (cirq.Y(b), (), ()), (cirq.CZ(a, b), (), ()),
+        (cirq.measure(a, key="k"), ("k",), ()), (cirq.measure(b, key="k"), ("k",), ()), (cirq.measure(c, key="m"), ("m",), ()),
+        (cirq.X(b).with_classical_controls("k"), (), ("k",)), (cirq.X(c).with_classical_controls("k", "m"), (), ("k", "m")),
+        (cirq.Z(c), (), ()), (cirq.CZ(b, c), (), ()), (cirq.H(a), (), ()), (cirq.Z(b), (), ()),
+        (cirq.X(a) ** sympy.Symbol("s"), (), ()), (cirq.rz(sympy.Symbol("t")).on(c), (), ()), (cirq.CZ(a, c) ** sympy.Symbol("s"), (), ()),
+        (cirq.Z(b).with_classical_controls(sympy.Symbol("k") + sympy.Symbol("m") > 0), (), ("k", "m")),
+        (cirq.Y(b).with_classical_controls("m").with_tags("t"), (), ("m",)),
+        (gated_body, (), ("m",)),
+        (gated_body.with_classical_controls("k"), (), ("k", "m")),                      # a control around an operation that has control keys of its own
+        (measuring_body, ("k",), ()),
+        (cirq.measure_single_paulistring(cirq.X(a) * cirq.Z(b), key="m"), ("m",), ()),
+    ]
+    return {op: (frozenset(cirq.MeasurementKey(k) for k in mk), frozenset(cirq.MeasurementKey(k) for k in ck)) for op, mk, ck in table}
+
+
+def _alphabet():
+    return list(_declared())
+
+
+def _keys_of(op):
+    import cirq
+
+    d = _DECL.get(op) if _DECL else None
+    if d is None:
+        _DECL.update(_declared())
+        d = _DECL.get(op)
+    if d is not None:
+        return set(d[0]), set(d[1])
+    return set(cirq.measurement_key_objs(op)), set(cirq.control_keys(op))  # derived operations (renamed keys, ...) outside the table
+
+
+_DECL: dict = {}
 
 
 def _conflict(o1, o2):
-    import cirq
-
-    mk1, ck1 = set(cirq.measurement_key_objs(o1)), set(cirq.control_keys(o1))
-    mk2, ck2 = set(cirq.measurement_key_objs(o2)), set(cirq.control_keys(o2))
+    (mk1, ck1), (mk2, ck2) = _keys_of(o1), _keys_of(o2)
     return bool(set(o1.qubits) & set(o2.qubits) or mk1 & mk2 or mk1 & ck2 or ck1 & mk2)
 
 
@@ -184,7 +214,7 @@ def _ops_bag(c):
     return Counter(op for m in c.moments for op in m.operations)
 
 
-def _order_ok(before_moments, c, inserted, k):
+def _order_ok(before_moments, c, inserted, k, strategy_is_not_earliest=True):
     """Conflicting ops keep their order: existing among themselves; inserted after everything before the insertion point."""
     pos = {}
     for i, m in enumerate(c.moments):
@@ -197,6 +227,28 @@ def _order_ok(before_moments, c, inserted, k):
         for (i2, o2) in single:
             if i1 < i2 and _conflict(o1, o2) and not (pos[o1][0] < pos[o2][0]):
                 return f"existing conflicting ops {o1!r} (moment {i1}) and {o2!r} (moment {i2}) lost their order"
+    if k is None:
+        return None
+    # inserted ones: among themselves, after every conflicting operation before the insertion point, before every one after it
+    L = len(before_moments)
+    k = max(min(k if k >= 0 else L + k, L), 0)
+    count = {}
+    for op in inserted:
+        count[op] = count.get(op, 0) + 1
+    uniq_new = [op for op in inserted if count[op] == 1 and len(pos.get(op, ())) == 1]
+    for a_ in range(len(uniq_new)):
+        for b_ in range(a_ + 1, len(uniq_new)):
+            o1, o2 = uniq_new[a_], uniq_new[b_]
+            if _conflict(o1, o2) and not (pos[o1][0] < pos[o2][0]):
+                return f"inserted conflicting ops {o1!r} and {o2!r} lost the order in which they were given"
+    for o in uniq_new:
+        for (i, e) in single:
+            if not _conflict(o, e):
+                continue
+            if i < k and not (pos[e][0] < pos[o][0]):
+                return f"inserted {o!r} landed in moment {pos[o][0]}, not after the conflicting {e!r} (moment {pos[e][0]}) that was before the insertion point {k}"
+            if i >= k and not (pos[o][0] < pos[e][0]) and (len(inserted) == 1 or strategy_is_not_earliest):
+                return f"inserted {o!r} landed in moment {pos[o][0]}, not before the conflicting {e!r} (moment {pos[e][0]}) that was at or after the insertion point {k}"
     return None
 
 
@@ -222,14 +274,14 @@ def _step(c, rng, method, ops):
         desc = f"append({new!r}, {st})"
         if _ops_bag(c) != bag0 + _ops_bag(cirq.Circuit(cirq.Moment([o]) for o in new)):
             err = "operations lost or duplicated"
-        err = err or _order_ok(before, c, new, L)
+        err = err or _order_ok(before, c, new, L, st is not S.EARLIEST)
     elif method == "insert" or method == "insert_latest":
         new, st, k = pick(3), (S.LATEST if method == "insert_latest" else rng.choice(strategies)), rng.randrange(-1, L + 2)
         c.insert(k, new, strategy=st)
         desc = f"insert({k}, {new!r}, {st})"
         if _ops_bag(c) != bag0 + _ops_bag(cirq.Circuit(cirq.Moment([o]) for o in new)):
             err = "operations lost or duplicated"
-        err = err or _order_ok(before, c, new, k)
+        err = err or _order_ok(before, c, new, k, st is not S.EARLIEST)
     elif method == "insert_into_range":
         if L == 0:
             return c, "skip", None
@@ -374,7 +426,82 @@ def standin_history(tier, seed):
                       "conflicting existing ops, and placement of 10 probe appends vs the rebuilt circuit",
                 cases=cases, distinct=distinct, failures=len(fails), exhaustive=False, _fails=fails)
 standin_history.prop = "C05"
-STANDINS = [standin_history, standin_moment_caches]
+
+
+def standin_placement_small(tier, seed):
+    """EVERY ordered pair (and, thorough: triple) of alphabet operations through every insertion entry point: the new operation lands
+    where the strategy says — for EARLIEST and the constructor exactly one moment after the last operation it conflicts with (conflict
+    taken from the keys written in the operations' construction, not from the protocols)."""
+    import itertools
+    import cirq
+
+    S = cirq.InsertStrategy
+    ops = _alphabet()
+    cases, fails = 0, []
+
+    def where(c, op):
+        return [i for i, m in enumerate(c.moments) if op in m.operations]
+
+    def expect_earliest(c_before, o):
+        last = -1
+        for i, m in enumerate(c_before.moments):
+            if any(_conflict(e, o) for e in m.operations):
+                last = i
+        return last + 1
+
+    def bad(desc, clause):
+        if len(fails) < 4:
+            fails.append(dict(args=dict(calls=desc), failed="placement", clause=clause))
+
+    prefixes = [(e,) for e in ops]
+    prefixes += [(e1, e2) for e1, e2 in itertools.product(ops, repeat=2) if e1 != e2]
+    for pre in prefixes:
+        base = cirq.Circuit(pre)
+        for o in ops:
+            if o in pre:
+                continue
+            want = expect_earliest(base, o)
+            # constructor and append(EARLIEST)
+            for desc, c in ((f"Circuit({list(pre) + [o]!r})", cirq.Circuit(list(pre) + [o])), (f"Circuit({list(pre)!r}).append({o!r})", _appended(base, o, S.EARLIEST))):
+                cases += 1
+                got = where(c, o)
+                if got != [want]:
+                    bad(desc, f"{o!r} landed in moment(s) {got}; the earliest moment after every conflicting operation is {want}")
+            # the other strategies at the end of the circuit: after every conflicting operation; NEW always opens a moment
+            for st in (S.NEW, S.INLINE, S.NEW_THEN_INLINE, S.LATEST):
+                cases += 1
+                c = _appended(base, o, st)
+                got = where(c, o)
+                last_conflict = want - 1
+                if len(got) != 1 or got[0] <= last_conflict:
+                    bad(f"Circuit({list(pre)!r}).append({o!r}, {st})", f"{o!r} landed in moment(s) {got}, not after the conflicting operation in moment {last_conflict}")
+                elif st is S.NEW and got[0] != len(base):
+                    bad(f"Circuit({list(pre)!r}).append({o!r}, {st})", f"NEW must open moment {len(base)}; landed in {got}")
+                elif st is S.INLINE and got[0] != (len(base) - 1 if last_conflict < len(base) - 1 else len(base)):
+                    bad(f"Circuit({list(pre)!r}).append({o!r}, {st})", f"INLINE must use the last moment iff it has no conflict; landed in {got}")
+            # insert at the front: before every conflicting operation
+            for st in (S.EARLIEST, S.NEW, S.INLINE):
+                cases += 1
+                c = base.copy()
+                c.insert(0, o, strategy=st)
+                got = where(c, o)
+                firsts = [i for i, m in enumerate(c.moments) for e in m.operations if e in pre and _conflict(e, o)]
+                if len(got) != 1 or (firsts and got[0] >= min(firsts)):
+                    bad(f"Circuit({list(pre)!r}).insert(0, {o!r}, {st})", f"{o!r} landed in moment(s) {got}, not before the conflicting operation in moment {min(firsts) if firsts else None}")
+    return dict(function=F + ":Circuit[placement of one more operation]", case="placement-small",
+                bound=f"every prefix of 1-2 distinct operations x every further operation of a {len(ops)}-operation alphabet (classical controls incl. sympy conditions, tagged, "
+                      "a control around a sub-circuit that reads an outer key, measuring sub-circuit, Pauli measurement) x constructor / append with 5 strategies / insert at 0 with 3",
+                cases=cases, distinct=cases, failures=len(fails), exhaustive=True, _fails=fails[:4])
+standin_placement_small.prop = "C05"
+
+
+def _appended(base, o, st):
+    c = base.copy()
+    c.append(o, strategy=st)
+    return c
+
+
+STANDINS = [standin_history, standin_moment_caches, standin_placement_small]
 
 
 def _replay_frame(ob, seed):
